@@ -18,6 +18,7 @@ import XotModel.Lemmas.CompareDeep
 import XotModel.Lemmas.CompareTextContent
 import XotModel.Lemmas.CompareAllTrees
 import XotModel.Lemmas.CompareNames
+import XotModel.Lemmas.CompareCustom
 import XotModel.Lemmas.ReachCompare
 import XotModel.Lemmas.ReachHist
 import XotModel.Props.C04
@@ -695,6 +696,37 @@ theorem C13_reachable_string_value_full (env : Env) (cs : List PCall) (hw : ∀ 
   obtain ⟨va, la, _⟩ := C13_reachable_valid_full env cs hw r hr p a ha
   exact ⟨C13_string_value env' a va la hk, fun s hs => C13_text_content_string_value env' a va la hk s hs⟩
 
+/-- ⟦C13_reachable_shallow_ignore_full⟧ `shallow_equal_ignore_attributes` between any two nodes of a store reached
+    by parses and API calls, for EVERY ignore list: equality of the canonical values with the listed names
+    removed — `C13_shallow_ignore` with its four structural hypotheses discharged by the history.  What remains
+    is the machine-size hypothesis (the counter of the Rust loop is a `usize`): the first node has fewer than
+    2^64 attributes, which no history of fewer than 2^64 calls can violate but which is not a structural fact. -/
+theorem C13_reachable_shallow_ignore_full (env : Env) (cs : List PCall) (hw : ∀ c ∈ cs, c.wellKinded) :
+    ∀ r₁ ∈ ((PStore.init env).run cs).forest.roots,
+    ∀ r₂ ∈ ((PStore.init env).run cs).forest.roots,
+    ∀ (p₁ p₂ : Path) (a b : Tree), r₁.erase.at? p₁ = some a → r₂.erase.at? p₂ = some b →
+      a.attrLen < usizeModulus → ∀ ign : List Nat,
+      (shallowEqualIgnoreAttributes a b ign = true ↔
+        cvalueIgnoring ign a.value a.kids = cvalueIgnoring ign b.value b.kids) := by
+  intro r₁ h₁ r₂ h₂ p₁ p₂ a b ha hb la ign
+  obtain ⟨_, _, _, _, oa, na⟩ := C13_reachable_valid_full env cs hw r₁ h₁ p₁ a ha
+  obtain ⟨_, _, _, _, ob, nb⟩ := C13_reachable_valid_full env cs hw r₂ h₂ p₂ b hb
+  exact C13_shallow_ignore a b ign oa ob na nb la
+
+/-- ⟦C13_reachable_shallow_full⟧ `shallow_equal` between any two nodes of such a store (any kinds, attribute and
+    namespace nodes included): equality of the canonical VALUES (kind, name, the attribute map; nothing about
+    children) — `C13_shallow` with the structural hypotheses discharged. -/
+theorem C13_reachable_shallow_full (env : Env) (cs : List PCall) (hw : ∀ c ∈ cs, c.wellKinded) :
+    ∀ r₁ ∈ ((PStore.init env).run cs).forest.roots,
+    ∀ r₂ ∈ ((PStore.init env).run cs).forest.roots,
+    ∀ (p₁ p₂ : Path) (a b : Tree), r₁.erase.at? p₁ = some a → r₂.erase.at? p₂ = some b →
+      a.attrLen < usizeModulus →
+      (shallowEqual a b = true ↔ (canon a).value = (canon b).value) := by
+  intro r₁ h₁ r₂ h₂ p₁ p₂ a b ha hb la
+  obtain ⟨_, _, _, _, oa, na⟩ := C13_reachable_valid_full env cs hw r₁ h₁ p₁ a ha
+  obtain ⟨_, _, _, _, ob, nb⟩ := C13_reachable_valid_full env cs hw r₂ h₂ p₂ b hb
+  exact C13_shallow a b oa ob na nb la
+
 /-! ### Non-vacuity: parse, edit, ask (from the tables of `Xot::new()`, `Env.fresh`)
 
   PARSE `fullText` of Props/C04.lean, `<r xmlns:p="urn:a"><p:a>t</p:a></r>` (handles 0..4), then build by hand
@@ -732,5 +764,198 @@ example : canon c13FullRootA.erase ≠ canon c13FullRootB.erase := fun h =>
 example : stringValue {} c13FullRootA.erase = ['t'] :=
   ((C13_reachable_string_value_full Env.fresh c13FullCalls c13FullCalls_wellKinded
     c13FullRootA c13FullRootA_mem [] _ rfl (Or.inl rfl) {}).1).trans (by decide)
+/-- The parsed inner element and the hand-built element (one more declaration) are `shallow_equal`, by
+    `C13_reachable_shallow_full`. -/
+example : shallowEqual (.node (.element 3) [.node (.text ['t']) []])
+    (.node (.element 3) [.node (.namespace 2 2) [], .node (.text ['t']) []]) = true :=
+  (C13_reachable_shallow_full Env.fresh c13FullCalls c13FullCalls_wellKinded
+    c13FullRootA c13FullRootA_mem c13FullRootB c13FullRootB_mem [0, 1] [] _ _ (by decide) (by decide)
+    (by decide)).mpr (by decide)
+
+end XotModel.Props
+
+/-! # ================================================================================================
+    # CUSTOM TEXT COMPARISONS (branch wt-c13small)
+    # ================================================================================================
+
+  `advanced_deep_equal(a, b, filter, text_compare)` and `deep_equal_xpath(a, b, text_compare)` take the text
+  comparison from the caller.  Where it is consulted (read off `advanced_compare_value` /
+  `advanced_compare_attributes` in /repo/src/valueaccess.rs): text nodes; the data of two processing
+  instructions that both have data; the value of an attribute NODE; the values of the attributes of two
+  elements, name by name.  Everything else is `==`: element / attribute names, PI targets, prefixes and
+  namespaces of namespace nodes — and COMMENT data (`a.get() == b.get()`; the documentation of
+  `advanced_deep_equal` promises the supplied comparison for "text nodes and attributes" only).
+  Lemmas: Lemmas/CompareCustom.lean. -/
+
+namespace XotModel.Props
+open XotModel
+
+/-- ⟦C13_custom_equivalence⟧ **The laws of the supplied comparison carry over to the trees, for every filter.**
+    `cmp` reflexive on strings ⇒ `advanced_deep_equal(·, ·, filter, cmp)` reflexive on valid trees; `cmp`
+    symmetric ⇒ symmetric on valid trees; `cmp` transitive ⇒ transitive on ALL trees.  Each law of the tree
+    comparison needs only the same law of `cmp`. -/
+theorem C13_custom_equivalence (f : NodeFilter) (cmp : TextCmp) :
+    ((∀ s, cmp s s = true) → ∀ a : Tree, a.valid = true → advancedDeepEqual f cmp a a = true) ∧
+    ((∀ s t, cmp s t = true → cmp t s = true) → ∀ a b : Tree, a.valid = true → b.valid = true →
+      advancedDeepEqual f cmp a b = advancedDeepEqual f cmp b a) ∧
+    ((∀ s t u, cmp s t = true → cmp t u = true → cmp s u = true) → ∀ a b c : Tree,
+      advancedDeepEqual f cmp a b = true → advancedDeepEqual f cmp b c = true →
+      advancedDeepEqual f cmp a c = true) :=
+  ⟨fun hr a va => advancedDeepEqual_refl f hr a (attrViewsNodup_of_valid a va),
+   fun hs a b va vb => advancedDeepEqual_symm f hs a b (attrViewsNodup_of_valid a va) (attrViewsNodup_of_valid b vb),
+   fun ht a b c => advancedDeepEqual_trans f ht a b c⟩
+
+/-- ⟦C13_custom_equivalence_all_trees⟧ Reflexivity and symmetry need less than validity: no node's attribute
+    view (`skip_while` namespace / `take_while` attribute) repeats a name — whatever the order of the
+    children and whatever hangs under attribute / namespace nodes (`C13_equiv_all_trees` is the `==`
+    instance with the trivial filter). -/
+theorem C13_custom_equivalence_all_trees (f : NodeFilter) (cmp : TextCmp) :
+    ((∀ s, cmp s s = true) → ∀ a : Tree, a.attrViewsNodup = true → advancedDeepEqual f cmp a a = true) ∧
+    ((∀ s t, cmp s t = true → cmp t s = true) → ∀ a b : Tree, a.attrViewsNodup = true →
+      b.attrViewsNodup = true → advancedDeepEqual f cmp a b = advancedDeepEqual f cmp b a) :=
+  ⟨fun hr a va => advancedDeepEqual_refl f hr a va, fun hs a b va vb => advancedDeepEqual_symm f hs a b va vb⟩
+
+/-- ⟦C13_custom_reachable_equivalence_full⟧ … in particular between ANY nodes of a store reached by parses and
+    API calls, with no structural hypothesis. -/
+theorem C13_custom_reachable_equivalence_full (env : Env) (cs : List PCall) (hw : ∀ c ∈ cs, c.wellKinded)
+    (f : NodeFilter) (cmp : TextCmp) :
+    ((∀ s, cmp s s = true) → ∀ r ∈ ((PStore.init env).run cs).forest.roots, ∀ (p : Path) (a : Tree),
+      r.erase.at? p = some a → advancedDeepEqual f cmp a a = true) ∧
+    ((∀ s t, cmp s t = true → cmp t s = true) →
+     ∀ r₁ ∈ ((PStore.init env).run cs).forest.roots,
+     ∀ r₂ ∈ ((PStore.init env).run cs).forest.roots,
+     ∀ (p₁ p₂ : Path) (a b : Tree), r₁.erase.at? p₁ = some a → r₂.erase.at? p₂ = some b →
+      advancedDeepEqual f cmp a b = advancedDeepEqual f cmp b a) :=
+  ⟨fun hr r h p a ha => (C13_custom_equivalence f cmp).1 hr a (C13_reachable_valid_full env cs hw r h p a ha).1,
+   fun hs r₁ h₁ r₂ h₂ p₁ p₂ a b ha hb => (C13_custom_equivalence f cmp).2.1 hs a b
+     (C13_reachable_valid_full env cs hw r₁ h₁ p₁ a ha).1 (C13_reachable_valid_full env cs hw r₂ h₂ p₂ b hb).1⟩
+
+/-- ⟦C13_custom_equivalence_converse⟧ **Conversely** the laws of the tree comparison (already on valid trees,
+    for any one filter) force the laws of `cmp`: two attribute nodes of the same name compare as `cmp` of
+    their values, whatever the filter.  So `advanced_deep_equal(·, ·, filter, cmp)` is reflexive /
+    symmetric / transitive on valid trees IF AND ONLY IF `cmp` is, law by law. -/
+theorem C13_custom_equivalence_converse (f : NodeFilter) (cmp : TextCmp) :
+    (∀ (n : Nat) (s t : Str),
+      advancedDeepEqual f cmp (.node (.attribute n s) []) (.node (.attribute n t) []) = cmp s t) ∧
+    ((∀ a : Tree, a.valid = true → advancedDeepEqual f cmp a a = true) → ∀ s, cmp s s = true) ∧
+    ((∀ a b : Tree, a.valid = true → b.valid = true →
+        advancedDeepEqual f cmp a b = advancedDeepEqual f cmp b a) → ∀ s t, cmp s t = cmp t s) ∧
+    ((∀ a b c : Tree, a.valid = true → b.valid = true → c.valid = true →
+        advancedDeepEqual f cmp a b = true → advancedDeepEqual f cmp b c = true →
+        advancedDeepEqual f cmp a c = true) →
+      ∀ s t u, cmp s t = true → cmp t u = true → cmp s u = true) := by
+  have key : ∀ (n : Nat) (s t : Str),
+      advancedDeepEqual f cmp (.node (.attribute n s) []) (.node (.attribute n t) []) = cmp s t := by
+    intro n s t
+    rw [advancedDeepEqual_abnormal f cmp _ _ (Or.inl (by simp [Tree.value, Value.isNormal, Value.category]))]
+    simp [compareValue, Tree.value]
+  have hv : ∀ (n : Nat) (s : Str), (Tree.node (.attribute n s) []).valid = true := by
+    intro n s; simp [Tree.valid, orderedKids, attrNamesNodup, attrPairs, Tree.valid.validList]
+  refine ⟨key, fun h s => ?_, fun h s t => ?_, fun h s t u h1 h2 => ?_⟩
+  · rw [← key 0 s s]; exact h _ (hv 0 s)
+  · rw [← key 0 s t, ← key 0 t s]; exact h _ _ (hv 0 s) (hv 0 t)
+  · rw [← key 0 s u]
+    exact h _ _ _ (hv 0 s) (hv 0 t) (hv 0 u) ((key 0 s t).trans h1) ((key 0 t u).trans h2)
+
+/-- A comparison that is NOT symmetric (`s` is not longer than `t`) gives a non-symmetric tree comparison:
+    `<e>x</e>` against `<e>xy</e>` is true, the other way round false. -/
+def lenLe : TextCmp := fun s t => decide (s.length ≤ t.length)
+
+example : advancedDeepEqual (fun _ => true) lenLe
+      (.node (.element 2) [.node (.text ['x']) []]) (.node (.element 2) [.node (.text ['x', 'y']) []]) = true ∧
+    advancedDeepEqual (fun _ => true) lenLe
+      (.node (.element 2) [.node (.text ['x', 'y']) []]) (.node (.element 2) [.node (.text ['x']) []]) = false := by
+  decide
+
+/-! ### Where the supplied comparison decides -/
+
+/-- ⟦C13_custom_applies_everywhere⟧ **The node-by-node test of `advanced_deep_equal` with the supplied
+    comparison** (`advanced_compare_value`; by `C13_advanced` the whole comparison of two normal nodes is this
+    test on the kept nodes pairwise, by `C13_advanced_abnormal` it is this test on the two nodes otherwise):
+    * text against text: `cmp` of the two strings, nothing else;
+    * attribute node against attribute node: same name and `cmp` of the two values;
+    * PI against PI, both with data: same target and `cmp` of the data; both without: same target;
+    * element against element: same name, the same NUMBER of attributes, and every attribute of the first has
+      an attribute of the same name in the second whose value `cmp` relates to it — `cmp` is the only thing
+      asked of the two values (in particular not their lengths: the closed example below has values of
+      different byte length);
+    * comment against comment: `==` on the data, NOT `cmp` (as written in the Rust, and as documented: "Text
+      nodes and attributes are compared using the provided comparison function");
+    * namespace node against namespace node: `==` on prefix and namespace; document against document: true;
+      different kinds: false. -/
+theorem C13_custom_applies_everywhere (cmp : TextCmp) :
+    (∀ (s t : Str) (ka kb : List Tree),
+      compareValue cmp (.node (.text s) ka) (.node (.text t) kb) = cmp s t) ∧
+    (∀ (n m : Nat) (v w : Str) (ka kb : List Tree),
+      compareValue cmp (.node (.attribute n v) ka) (.node (.attribute m w) kb) = (n == m && cmp v w)) ∧
+    (∀ (tg tg' : Nat) (s t : Str) (ka kb : List Tree),
+      compareValue cmp (.node (.pi tg (some s)) ka) (.node (.pi tg' (some t)) kb) = (tg == tg' && cmp s t)) ∧
+    (∀ (tg tg' : Nat) (ka kb : List Tree),
+      compareValue cmp (.node (.pi tg none) ka) (.node (.pi tg' none) kb) = (tg == tg')) ∧
+    (∀ (n m : Nat) (ka kb : List Tree),
+      (compareValue cmp (.node (.element n) ka) (.node (.element m) kb) = true ↔
+        n = m ∧ (Tree.node (.element n) ka).attrs.length = (Tree.node (.element m) kb).attrs.length ∧
+          ∀ kv ∈ (Tree.node (.element n) ka).attrs,
+            ∃ w, (Tree.node (.element m) kb).attrs.lookup kv.1 = some w ∧ cmp kv.2 w = true)) ∧
+    (∀ (s t : Str) (ka kb : List Tree),
+      compareValue cmp (.node (.comment s) ka) (.node (.comment t) kb) = (s == t)) ∧
+    (∀ (p q n m : Nat) (ka kb : List Tree),
+      compareValue cmp (.node (.namespace p n) ka) (.node (.namespace q m) kb) = (p == q && n == m)) ∧
+    (∀ a b : Tree, compareValue cmp a b = true → a.value.category = b.value.category) := by
+  refine ⟨fun _ _ _ _ => rfl, fun _ _ _ _ _ _ => rfl, ?_, ?_, ?_, fun _ _ _ _ => rfl, fun _ _ _ _ _ _ => rfl, ?_⟩
+  · intro tg tg' s t ka kb
+    by_cases h : tg = tg' <;> simp [compareValue, Tree.value, h]
+  · intro tg tg' ka kb
+    by_cases h : tg = tg' <;> simp [compareValue, Tree.value, h]
+  · intro n m ka kb
+    rw [← compareAttributes_true_iff]
+    simp [compareValue, Tree.value]
+  · intro a b h
+    rw [compareValue_cases] at h
+    rcases h with ⟨h1, h2⟩ | ⟨n, h1, h2, _⟩ | ⟨s, t, h1, h2, _⟩ | ⟨s, h1, h2⟩ | ⟨t, h1, h2⟩ |
+      ⟨tg, s, t, h1, h2, _⟩ | ⟨n, s, t, h1, h2, _⟩ | ⟨p, n, h1, h2⟩ <;> rw [h1, h2] <;> rfl
+
+/-- ⟦C13_custom_single_attribute⟧ Two elements of the same name with one attribute each, of the same name:
+    the unfiltered comparison IS `cmp` of the two values, whatever they are (equal or different length). -/
+theorem C13_custom_single_attribute (cmp : TextCmp) (n k : Nat) (v w : Str) :
+    advancedDeepEqual (fun _ => true) cmp (.node (.element n) [.node (.attribute k v) []])
+      (.node (.element n) [.node (.attribute k w) []]) = cmp v w := by
+  rw [C13_advanced_all cmp _ _
+    (by simp [Tree.valid, Tree.valid.validList, orderedKids, attrNamesNodup, attrPairs, Tree.value, Value.category,
+      Value.isNormal])
+    (by simp [Tree.valid, Tree.valid.validList, orderedKids, attrNamesNodup, attrPairs, Tree.value, Value.category,
+      Value.isNormal])]
+  simp [canon, canon.canonList, cvalue, attrPairs, sortAttrs, insertAttr, Canon.rel, Canon.relList, CValue.rel,
+    attrsRel, cmpFound, Tree.value, Value.isNormal, Value.category, List.lookup]
+
+/-- A trim-insensitive comparison (leading / trailing spaces do not count): an equivalence relation on
+    strings that relates strings of DIFFERENT length. -/
+def trimSpaces (s : Str) : Str := ((s.dropWhile (· == ' ')).reverse.dropWhile (· == ' ')).reverse
+def trimEq : TextCmp := fun s t => trimSpaces s == trimSpaces t
+
+/-- The hypotheses of `C13_custom_equivalence` are satisfiable by a comparison other than `==`. -/
+example : (∀ s, trimEq s s = true) ∧ (∀ s t, trimEq s t = true → trimEq t s = true) ∧
+    (∀ s t u, trimEq s t = true → trimEq t u = true → trimEq s u = true) := by
+  refine ⟨fun s => by simp [trimEq], fun s t h => ?_, fun s t u h1 h2 => ?_⟩
+  · simp only [trimEq, beq_iff_eq] at *; exact h.symm
+  · simp only [trimEq, beq_iff_eq] at *; exact h1.trans h2
+
+/-- `<e a=" v "/>` against `<e a="v"/>` (attribute values of 3 and 1 bytes) under the trim-insensitive
+    comparison: equal — by `C13_custom_single_attribute` the answer is `trimEq " v " "v"`; `deep_equal`
+    (`==`) tells them apart.  Likewise text, PI data and the value of an attribute node; comment data is
+    compared with `==` whatever the comparison. -/
+example : advancedDeepEqual (fun _ => true) trimEq
+      (.node (.element 2) [.node (.attribute 3 [' ', 'v', ' ']) []])
+      (.node (.element 2) [.node (.attribute 3 ['v']) []]) = true :=
+  (C13_custom_single_attribute trimEq 2 3 _ _).trans (by decide)
+example : deepEqual (.node (.element 2) [.node (.attribute 3 [' ', 'v', ' ']) []])
+    (.node (.element 2) [.node (.attribute 3 ['v']) []]) = false := by decide
+example : advancedDeepEqual (fun _ => true) trimEq
+      (.node (.element 2) [.node (.text [' ', 'v']) [], .node (.pi 4 (some ['d', ' '])) []])
+      (.node (.element 2) [.node (.text ['v', ' ', ' ']) [], .node (.pi 4 (some ['d'])) []]) = true ∧
+    advancedDeepEqual (fun _ => true) trimEq (.node (.attribute 3 [' ', 'v']) []) (.node (.attribute 3 ['v']) []) = true ∧
+    advancedDeepEqual (fun _ => true) trimEq
+      (.node (.element 2) [.node (.comment [' ', 'c']) []]) (.node (.element 2) [.node (.comment ['c']) []]) = false := by
+  decide
 
 end XotModel.Props
